@@ -1,3 +1,3 @@
 #!/bin/bash
 # usage: check.sh <property> quick|thorough
-exec python3 /verif/scripts/check.py "$@"
+exec python3 "$(dirname "$(readlink -f "$0")")/check.py" "$@"
